@@ -169,6 +169,19 @@ example : RunOk shippedLimits 0 0 ((List.replicate 80 (Acct.pkt 100)) ++ [.switc
      | .ok _ => false) = true := by
   decide +kernel
 
+/-- **Concurrent senders linearise** (facts read from the AST of `Packetizer.send_message` on every run): there is
+ONE `__write_lock` region, entered by an unconditional blocking `acquire()` (no timeout / non-blocking argument whose
+result could be ignored), left in a `finally`, and every access to the sender's shared per-direction state — the
+stateful compressor, the sequence number, the cipher / MAC engines and IV, `_build_packet`, `write_all`, the rekey
+counters — lies inside it.  Hence with any number of threads in `send_message` the wire is what the sequential
+sender (`sendAll`, `sendAllW`) produces for the messages in lock order, and `roundtrip` applies to that order. -/
+theorem send_message_linearises_generated :
+    PV.Generated.C03.send_lock_acquire_unconditional = true ∧
+    PV.Generated.C03.send_lock_released_in_finally = true ∧
+    PV.Generated.C03.send_shared_state_outside_lock = 0 ∧
+    0 < PV.Generated.C03.send_shared_state_inside_lock := by
+  decide
+
 /-- Every suite of the generated table meets the side conditions of `PairedSt` / `CiphPaired`:
 block size ≥ 4, AES-GCM rows carry the 16-byte tag as MAC length. -/
 theorem suites_meet_side_conditions :
